@@ -101,7 +101,7 @@ func C04(r *drv.Run) {
 	}
 	variants := amountVariants()
 	longV := longVariants()
-	r.Rule = fmt.Sprintf("bodies B from the core generator (alphabet {a,b}: occurrences overlap, lazy and bounded loops) plus fixed overlapping bodies; per (B, text) the `all` result A and %d amount clauses (top/take n, skip s, last n for n,s in 0..5, skip s take t for s,t in 0..4 - straddling len(A); a few spelled with leading zeros) as find and as replace commands; plus 3 fixed bodies on texts with 14..20 matches under %d clauses with amounts 7..13, each number also spelled with one and two leading zeros (still decimal), and with amounts 100..301 (around 128 and 256) against a text with 300 matches. Oracle: each clause's result must deep-equal (every field, incl. MatchNumber, variables, replacement) the stated slice of A; A itself is checked against the reference matcher. Non-trivial = len(A) >= 2 and the clause cuts A properly (0 < window < len(A)); distinct by (B, text, clause).", len(variants), len(longV))
+	r.Rule = fmt.Sprintf("bodies B from the core generator (alphabet {a,b}: occurrences overlap, lazy and bounded loops) plus fixed overlapping bodies; per (B, text) the `all` result A and %d amount clauses (top/take n, skip s, last n for n,s in 0..5, skip s take t for s,t in 0..4 - straddling len(A); a few spelled with leading zeros) as find and as replace commands; plus 6 fixed bodies (three of them over multi-byte characters, consumed in one piece and byte by byte) on texts with 14..20 matches under %d clauses with amounts 7..13, each number also spelled with one and two leading zeros (still decimal), and with amounts 100..301 (around 128 and 256) against a text with 300 matches. Oracle: each clause's result must deep-equal (every field, incl. MatchNumber, variables, replacement) the stated slice of A; A itself is checked against the reference matcher. Non-trivial = len(A) >= 2 and the clause cuts A properly (0 < window < len(A)); distinct by (B, text, clause).", len(variants), len(longV))
 	r.Assumptions = []string{"`last n` only for n >= 1 (the property's range)", "A itself judged by the C01 reference so the relation cannot hold vacuously on a wrong A"}
 	fixed := [][]gen.Node{
 		{gen.Lit{S: "aa"}},
@@ -114,8 +114,14 @@ func C04(r *drv.Run) {
 		{gen.Lit{S: "ab"}},
 		{gen.Class{Kind: "letter"}},
 		{gen.Capture{Name: "x", Body: gen.Class{Kind: "any"}}, gen.Loop{Min: 0, Max: 1, Form: "maybe", Body: gen.BackRef{Name: "x"}}},
+		// multi-byte characters consumed in one piece (a literal) and byte by byte (any): line and column of what
+		// follows a skipped match
+		{gen.Lit{S: "é"}, gen.Class{Kind: "digit"}},
+		{gen.Lit{S: "ab", Not: true}},
+		{gen.Class{Kind: "any"}, gen.Lit{S: "€"}, gen.Loop{Min: 0, Max: 1, Form: "maybe", Body: gen.Lit{S: "\n"}}},
 	}
-	longTexts := [][]byte{[]byte("abababababababababababababab"), []byte("ab ab ab ab ab ab ab ab ab ab ab ab ab ab ab ab"), []byte("aabbaabbaabbaabbaabbaabbaabb\nabab"), []byte(rep("ab ", 300))}
+	longTexts := [][]byte{[]byte("abababababababababababababab"), []byte("ab ab ab ab ab ab ab ab ab ab ab ab ab ab ab ab"), []byte("aabbaabbaabbaabbaabbaabbaabb\nabab"), []byte(rep("ab ", 300)),
+		[]byte("é1 é2 é3 é4 é5 é6 é7 é8 é9 é0 é1 é2 é3 é4 é5"), []byte("x€\ny€z€\n€é€ é€\né€x€ y€ z€ a€ b€ c€ d€ e€")}
 	r.Exec(nbody+2*len(longBodies), drv.ExecOpts{Batch: 4}, func(i int) *drv.Item {
 		rng := gen.Derive(r.Seed, "C04", i)
 		var p *gen.Program
